@@ -144,6 +144,43 @@ class Tr:
             pos[0] += 1
             return t
 
+        def shape_of(raw):
+            """symbolic extent of a whole-array operand from the DECLARATIONS: a bare array name, or minval/maxval(name, 2)"""
+            if len(raw) == 1 and raw[0] in self.arrays:
+                return tuple(self.arrays[raw[0]])
+            if len(raw) == 6 and raw[0] in ("minval", "maxval") and raw[1] == "(" and raw[3] == "," and raw[4] == "2" and raw[5] == ")" \
+                    and raw[2] in self.arrays and len(self.arrays[raw[2]]) == 2:
+                return (self.arrays[raw[2]][0],)
+            # sums / differences of whole arrays: every term must have the same declared extents
+            parts, depth, cur = [], 0, []
+            for tk in raw:
+                if tk == "(":
+                    depth += 1
+                elif tk == ")":
+                    depth -= 1
+                if depth == 0 and tk in ("+", "-") and cur:
+                    parts.append(cur)
+                    cur = []
+                elif not (depth == 0 and tk in ("+", "-")):
+                    cur.append(tk)
+            if cur:
+                parts.append(cur)
+            if len(parts) >= 2:
+                shapes = [shape_of(q) for q in parts]
+                if all(x is not None for x in shapes) and len(set(shapes)) == 1:
+                    return shapes[0]
+            return None
+
+        def conform(what, ra, rb):
+            """whole-array operands must have the same declared extents (an undersized dummy such as point(2) for
+            point(dimension_) compiles, and silently compares fewer elements)"""
+            sa, sb = shape_of(ra), shape_of(rb)
+            if sa is None or sb is None:
+                raise Bad("%s: cannot determine the declared extents of the operands of %s (%r, %r)" % (self.name, what, " ".join(ra), " ".join(rb)))
+            if sa != sb:
+                raise Bad("%s: operands of %s have different declared extents: %r is %r, %r is %r" % (
+                    self.name, what, " ".join(ra), sa, " ".join(rb), sb))
+
         def p_or():
             a = p_and()
             while peek() is not None and peek().upper() == ".OR.":
@@ -226,15 +263,21 @@ class Tr:
                     take(")")
                     return "(%s %s)" % ("np_min_axis1" if t == "minval" else "np_max_axis1", a)
                 if t == "dot_product":
+                    p0 = pos[0]
                     a = p_or()
+                    p1 = pos[0]
                     take(",")
                     b = p_or()
+                    conform("dot_product", toks[p0:p1], toks[p1 + 1:pos[0]])
                     take(")")
                     return "(vdot %s %s)" % (a, b)
                 if t == "any":
+                    p0 = pos[0]
                     a = p_add()
+                    p1 = pos[0]
                     op = take()
                     b = p_add()
+                    conform("any(. %s .)" % op, toks[p0:p1], toks[p1 + 1:pos[0]])
                     take(")")
                     if op != "<":
                         raise Bad("%s: any() of %r" % (self.name, op))
